@@ -26,17 +26,17 @@ Python semantics notes (stated once, relied upon below):
    `flags & CAN_TLS`, i.e. 0 or CAN_TLS; the translator checks CAN_TLS == 1 in
    contact.py so the operand value is 0/1 and `v != b` is the same as
    `truth(v) != b` (0 == False, 1 == True in Python).
- * Truthiness per model type: bool -> itself; Optional[str] (peer_dnsid) ->
-   `is_some` (names are assumed non-empty strings); ipaddress objects define
-   neither __bool__ nor __len__ -> always true (the harness re-checks this at
-   run time); list-or-None (cert_ids) -> non-empty (None and [] are both falsy,
-   so None is modelled as []).
+ * Truthiness per model type (every name used in a boolean context must have
+   one of these types, anything else raises): bool -> itself; str references
+   (peer_nodeid) -> non-empty (`id_truthy`, the empty string is identifier 0);
+   Optional[str] (peer_dnsid) -> not None and non-empty (`optid_truthy`);
+   ipaddress objects (peer_ipaddrid) define neither __bool__ nor __len__ and
+   cannot be built from an empty string -> always true (the harness re-checks
+   this at run time); list-or-None (cert_ids) -> non-empty (None and [] are
+   both falsy, so None is modelled as []); a match_id() result -> matched AND
+   its reference truthy (a matched result is the reference value itself).
  * `ref_id in cert_ids` with ref_id None is False for the value lists produced
    by cryptography (they never contain None).
- * A match_id() result used for its truth value (`not authn_ipaddrid`): None and
-   False are falsy, a matched result is the reference itself; only the IP and DNS
-   results may be used that way (their references are truthy whenever matched),
-   the translator refuses it for any other value.
  * `is None` / `is False` are identity tests: a match_id() result is Absent iff
    it `is None`, Mismatch iff it `is False`, anything else (the reference value
    itself, even an empty string) is Matched.
@@ -122,7 +122,7 @@ def single_assign(stmt, target):
 class Expr(object):
     ''' Translates Python expressions used for their truth value into Coq
     boolean terms.  `env`: dotted name -> (coq term, type) with type one of
-    bool | optbool | optid | id | obj | mres | mresT | list. '''
+    bool | optbool | optid | id | obj | list | ('mres', <ast node of the reference passed to match_id>). '''
 
     def __init__(self, env, calls=None):
         self.env = env
@@ -157,17 +157,20 @@ class Expr(object):
         (term, typ) = self.lookup(node)
         if typ == 'bool':
             return term
+        if typ == 'id':
+            return '(id_truthy %s)' % term          # str: '' is falsy
         if typ == 'optid':
-            return '(is_some %s)' % term
+            return '(optid_truthy %s)' % term       # Optional[str]: None and '' are falsy
         if typ == 'obj':
             return 'true'
         if typ == 'list':
             return '(nonempty %s)' % term
-        if typ == 'mresT':
-            # a match_id() result used for its truth value: None and False are falsy; a Matched result is the
-            # reference value itself, which for this variable is always truthy (an ipaddress object, or the
-            # non-empty DNS name -- peer_dnsid is only ever matched when it is a non-empty string)
-            return '(is_matched %s)' % term
+        if isinstance(typ, tuple) and typ[0] == 'mres':
+            # a match_id() result used for its truth value: None and False are falsy; a Matched result is
+            # the reference value itself, so it is as truthy as that reference (typ[1] = the reference's node)
+            if typ[1] is None:
+                _fail(node, 'truth value of a match result whose reference is unknown')
+            return '((is_matched %s) && %s)' % (term, self.truth(typ[1]))
         _fail(node, 'value of type %s used for its truth value' % typ)
 
     def compare(self, node):
@@ -181,13 +184,13 @@ class Expr(object):
             if is_const(right, None):
                 if typ in ('optbool', 'optid'):
                     res = '(negb (is_some %s))' % term
-                elif typ in ('mres', 'mresT'):
+                elif isinstance(typ, tuple) and typ[0] == 'mres':
                     res = '(is_absent %s)' % term
                 else:
                     _fail(node, '`is None` on type %s' % typ)
             elif is_const(right, False):
-                if typ not in ('mres', 'mresT'):
-                    _fail(node, '`is False` on type %s' % typ)
+                if not (isinstance(typ, tuple) and typ[0] == 'mres'):
+                    _fail(node, '`is False` on type %s' % (typ,))
                 res = '(is_mismatch %s)' % term
             else:
                 _fail(node, 'identity test against something else than None/False')
@@ -543,11 +546,16 @@ def tr_merge_session_params(tree):
         raise TranslateError('merge_session_params: references must be derived before the TLS block')
 
     # inside the TLS block
+    # references: how each is passed to match_id (as Optional value) and its Python type for truthiness.
+    # peer_ipaddrid is an ipaddress object (ip_address() raises on anything that is not an address; the objects
+    # define neither __bool__ nor __len__): always truthy.  peer_dnsid is Optional[str], peer_nodeid is str:
+    # None / the empty string are falsy -- the empty string is the identifier [empty_id].
     ref_types = {
         'peer_ipaddrid': ('(Some peer_ipaddrid)', 'obj'),
         'peer_dnsid': ('peer_dnsid', 'optid'),
         'peer_nodeid': ('(Some peer_nodeid)', 'id'),
     }
+    ref_nodes = {}
     inner = [st for st in guard.body if not is_logging(st)]
     lets = []
     seen = []
@@ -589,6 +597,7 @@ def tr_merge_session_params(tree):
         if ref not in ref_types or dotted(call.args[1]) != 'cert' or kind not in SAN_KINDS:
             _fail(stmt, 'match_id() arguments outside the whitelist')
         lets.append((target, '(match_id %s %s)' % (ref_types[ref][0], SAN_KINDS[kind])))
+        ref_nodes[target] = call.args[0]
         seen.append(target)
         pos += 1
     if sorted(seen) != ['authn_dnsid', 'authn_ipaddrid', 'authn_nodeid']:
@@ -599,9 +608,10 @@ def tr_merge_session_params(tree):
     env = {
         'peer_ipaddrid': ('peer_ipaddrid', 'obj'),
         'peer_dnsid': ('peer_dnsid', 'optid'),
-        'authn_ipaddrid': ('authn_ipaddrid', 'mresT'),
-        'authn_dnsid': ('authn_dnsid', 'mresT'),
-        'authn_nodeid': ('authn_nodeid', 'mres'),
+        'peer_nodeid': ('peer_nodeid', 'id'),
+        'authn_ipaddrid': ('authn_ipaddrid', ('mres', ref_nodes['authn_ipaddrid'])),
+        'authn_dnsid': ('authn_dnsid', ('mres', ref_nodes['authn_dnsid'])),
+        'authn_nodeid': ('authn_nodeid', ('mres', ref_nodes['authn_nodeid'])),
         'self._config.require_host_authn': ('require_host', 'bool'),
         'self._config.require_node_authn': ('require_node', 'bool'),
     }
@@ -646,6 +656,10 @@ Definition is_mismatch (m : mres) : bool := match m with Mismatch => true | _ =>
 Definition is_absent (m : mres) : bool := match m with Absent => true | _ => false end.      (* m is None  *)
 Definition is_matched (m : mres) : bool := match m with Matched => true | _ => false end.   (* bool(m), for a truthy reference *)
 Definition is_some {A : Type} (o : option A) : bool := match o with Some _ => true | None => false end.
+(* the empty string is the identifier 0; Python truth values of str / Optional[str] references *)
+Definition empty_id : id := 0%N.
+Definition id_truthy (x : id) : bool := negb (N.eqb x empty_id).
+Definition optid_truthy (o : option id) : bool := match o with Some x => id_truthy x | None => false end.
 Definition nonempty {A : Type} (l : list A) : bool := match l with [] => false | _ :: _ => true end.
 (* ref_id in cert_ids   (None is never a member) *)
 Definition id_in (ref : option id) (l : list id) : bool :=
